@@ -26,7 +26,7 @@ const rule = "case = a registration program: a tree of Group(path, handlers, bod
 var assumptions = []string{
 	"AutoHead is documented for Get(): while it is on, GET is declared through Get / Combo.Get / Any only (whether Route(\"GET\") and Routes(\"GET\") should add HEAD is not stated)",
 	"route paths of one program are distinct, so every registration is valid",
-	"a declaration that stands for several flat registrations and is refused half way leaves standing at most what its flat expansion had registered before the refused entry (Get under AutoHead = GET, then HEAD) - all of it, or nothing of it if the implementation takes a refused declaration back as a whole; it never leaves something the flat expansion did not reach, and what was there before stays",
+	"a declaration that is refused leaves what was there before untouched; of its own routes any part may stand (registered before the refusal was noticed) or none (taken back); later declarations are not affected by it (a Combo's common handlers do not stick to them, the group scope is as it was)",
 	"pieces that are each harmless but concatenate to a route the router must refuse (C08) are refused like the flat registration, and the enclosing scope is restored when a group is left through that panic",
 }
 
@@ -160,6 +160,8 @@ type builder struct {
 	next  int
 	trace *[]int
 	seen  *map[string]string
+	// cur is the statement being declared (for the attribution of a refusal)
+	cur *Node
 	// slow: the handlers have a shape that is none of the built-in fast ones, so
 	// that a HandlerWrapper gets to see every one of them
 	slow bool
@@ -206,6 +208,9 @@ func (b *builder) walk(nodes []Node) {
 	f := b.f
 	for _, n := range nodes {
 		n := n
+		if n.K != "group" {
+			b.cur = &n
+		}
 		switch n.K {
 		case "group":
 			hs := b.handlers(n.H, n.Spare)
@@ -363,13 +368,13 @@ func checkCase(c Case) (out evid.Outcome) {
 		p.wrap()
 		out.Classes = append(out.Classes, "handler-wrapper")
 	}
+	pbuild := &builder{f: p.f, trace: &p.trace, seen: &p.seen, slow: c.Wrapper}
 	perr := func() (err interface{}) {
 		defer func() { err = recover() }()
-		b := &builder{f: p.f, trace: &p.trace, seen: &p.seen, slow: c.Wrapper}
-		b.walk(c.Program)
+		pbuild.walk(c.Program)
 		return nil
 	}()
-	if perr != nil && hasLowerMethod(c.Program) {
+	if perr != nil && pbuild.cur != nil && hasLowerMethod([]Node{*pbuild.cur}) {
 		// a method name in another spelling than the standard upper-case one: that
 		// Route / Routes take it is not part of the statement
 		out.Excluded++
@@ -483,7 +488,16 @@ func checkCase(c Case) (out evid.Outcome) {
 			pRan, qRan = "", ""
 			p.f.ServeHTTP(rt.NewSpy(), rt.NewRequest(m, "/dg", nil))
 			q.f.ServeHTTP(rt.NewSpy(), rt.NewRequest(m, "/dg", nil))
-			if pRan != qRan && !(pRan == "" && qRan == "b") {
+			ok := pRan == qRan
+			if m == first {
+				ok = pRan == "a" // the route that was there before is untouched
+			} else if pRan == "" || pRan == "b" {
+				// the other half of the refused declaration: registered before the
+				// refusal was noticed, not registered, or taken back - the order in
+				// which Get declares its two routes is its own business
+				ok = true
+			}
+			if !ok {
 				// (what the refused declaration had registered before it was refused
 				// may stand, as after the flat expansion, or be taken back as a whole;
 				// what it must not do is leave something the flat expansion never
@@ -562,12 +576,16 @@ func checkCase(c Case) (out evid.Outcome) {
 						return fail(out, "dispatch", "%s: flat expansion registered=%v but the program's not-found ran=%v; program %s", desc, registered, pnf, js(c))
 					}
 					if c.Wrapper {
-						// every handler is announced by the wrapper first
-						var ww []int
-						for _, id := range want {
-							ww = append(ww, -1, id)
+						// (which handler shapes a wrapper gets to see is the framework's
+						// business: the announcements are compared between P and Q above,
+						// not with the flat expectation)
+						var plain []int
+						for _, id := range pt {
+							if id != -1 {
+								plain = append(plain, id)
+							}
 						}
-						want = ww
+						pt = plain
 					}
 					if fmt.Sprint(pt) != fmt.Sprint(want) {
 						return fail(out, "handlers", "%s: program ran handlers %v, flat expansion is %v; program %s", desc, pt, want, js(c))
